@@ -75,4 +75,9 @@ VARIANTS = [
       "class FunctionUnit(Function):\n    def eval(self, coordinates):\n        return 1.0\n\n"
       "    def getAnalyticSolutionIntegral(self, start, end):\n        return float(np.prod(np.array(end) - np.array(start)))\n\n\n"
       "class FunctionDiagonalDiscont(Function):\n"),
+    # round-3 rules
+    V("C12-n60-clip-on-a-copy", "neutral", None, None, edits=[
+        {"file": "Function.py", "old": "        end = list(end)\n", "new": "        end = np.array(end, dtype=float)\n", "all": True}]),
+    V("C12-b60-clip-on-the-callers-array", "break", None, None, "C12.D11", edits=[
+        {"file": "Function.py", "old": "        end = list(end)\n", "new": "        end = np.asarray(end)\n", "all": True}]),
 ]
